@@ -89,9 +89,18 @@ static void heterogeneous(const std::vector<Item>& items)
    World w;
    impl::Scope& sc = *w.unit.global_scope();
    std::vector<const ipr::Decl*> made;
+   int attempted = 0, refused = 0;
    for (auto& it : items) {
       const ipr::Name& n = *w.names.at(it.name);
       const ipr::Decl* d = nullptr;
+      if (it.kind == "refused") {
+         // a declaration that cannot be made (an alias whose initializer has no type yet) is refused with std::logic_error and
+         // declares nothing: the scope is as it was
+         ++attempted;
+         try { sc.make_alias(n, *w.lex.make_phantom()); }
+         catch (const std::logic_error&) { ++refused; }
+         continue;
+      }
       if (it.kind == "var") d = sc.make_var(n, *w.plain.at(it.type));
       else if (it.kind == "field") d = sc.make_field(n, *w.plain.at(it.type));
       else if (it.kind == "bitfield") d = sc.make_bitfield(n, *w.plain.at(it.type));
@@ -140,9 +149,9 @@ static void heterogeneous(const std::vector<Item>& items)
          }
       }
    }
-   std::printf("elements=%s types=%s sizes=%s names=%s dtypes=%s master=%s declset=%s lookup=%s select=%s\n",
+   std::printf("elements=%s types=%s sizes=%s names=%s dtypes=%s master=%s declset=%s lookup=%s select=%s refusals=%d/%d\n",
                join(elems).c_str(), join(types).c_str(), sizes.c_str(), join(names).c_str(), join(tys).c_str(),
-               join(masters).c_str(), join(declsets).c_str(), join(lookups, "").c_str(), join(selects, ";").c_str());
+               join(masters).c_str(), join(declsets).c_str(), join(lookups, "").c_str(), join(selects, ";").c_str(), refused, attempted);
 }
 
 static void homogeneous(const std::string& what, const std::vector<Item>& items)
